@@ -59,9 +59,9 @@ def scenario(big: bool = False) -> Any:
         d["drain"] = 0.0
         return d
 
-    hook = st.fixed_dictionaries({"async": st.sampled_from([False, True, "deferred"]), "fail_on": st.sets(st.integers(0, 7), max_size=4)})
+    hook = st.fixed_dictionaries({"async": st.sampled_from([False, True, "deferred", "future", "awaitable"]), "fail_on": st.sets(st.integers(0, 7), max_size=4)})
     mw = st.dictionaries(st.sampled_from(HOOKNAMES), hook, max_size=4)
-    msg = cm.message(timeouts=(None, None, None, 0.3, "1"), acks=("sync", "async", None, "sync_fail", "async_fail", "future", "deferred"), cleanups=(0, 0, 0.2, 0.4))
+    msg = cm.message(timeouts=(None, None, None, 0.3, "1"), acks=("sync", "async", None, "sync_fail", "async_fail", "future", "deferred", "cancelled_future"), cleanups=(0, 0, 0.2, 0.4))
     return st.fixed_dictionaries({
         "A": st.integers(1, 6 if big else 4), "P": st.integers(0, 5 if big else 3),
         "ack_type": st.sampled_from(["when_received", "when_executed", "when_saved"]),
@@ -124,7 +124,7 @@ def run_case(sc: Dict[str, Any]) -> Outcome:
     for mw in sc.get("mws", []):
         pre_fail |= set(mw.get("pre_execute", {}).get("fail_on", ()))
     for i in taken:
-        if sc["ack_type"] == "when_received" and str(specs[i].get("ack", "")).endswith("_fail"):
+        if sc["ack_type"] == "when_received" and (str(specs[i].get("ack", "")).endswith("_fail") or specs[i].get("ack") == "cancelled_future"):
             continue    # the failing ack callback runs before the task function: the execution is legitimately lost
         if wh.is_good(specs[i]) and i not in pre_fail and i not in entered:
             out.add("C03.d", f"well-formed message {i} was taken but never executed")
